@@ -128,7 +128,7 @@ class EvFn(pf.Fn):
                 if not isinstance(args, ast.Tuple):
                     raise Unsupported("Q.add args")
                 names = [ast.unparse(a) for a in args.elts]
-                if names[pos:] != shared or (ctor == "trans" and names[0] != "G"):
+                if names[pos:] != shared or (ctor != "recov" and names[0] != "G"):
                     raise Unsupported("args of the %s event: %s" % (ctor, names))
                 parts = [self.expr(args.elts[i], ind) for i in payload]
                 p1 = sum((q for q, _, _ in parts), [])
@@ -137,6 +137,13 @@ class EvFn(pf.Fn):
                         raise Unsupported("recovery event node")
                     ev = f"(Ev.recov {parts[0][1]})"
                 else:
+                    fut = ""
+                    if ctor == "transF":
+                        kf = parts[2][2]
+                        if kf not in ("list:erat", "list:empty"):
+                            raise Unsupported("future transmissions of kind " + kf)
+                        fut = " " + parts[2][1]
+                        parts = parts[:2]
                     (_, a, ka), (_, b, kb) = parts
                     if ka == "node":
                         a = f"(some {a})"
@@ -144,7 +151,7 @@ class EvFn(pf.Fn):
                         raise Unsupported("transmission event source")
                     if kb != "node":
                         raise Unsupported("transmission event target")
-                    ev = f"(Ev.trans {a} {b})"
+                    ev = f"(Ev.trans {a} {b}{fut})"
             return p + p1 + [f"{ind}let σ := {{ σ with Q := MyQueue.add σ.Q {tm} {ev} }}"], "()", "unit"
         return super().call(e, ind)
 
@@ -153,8 +160,9 @@ class EvFn(pf.Fn):
         for i, st in enumerate(stmts):
             src = ast.unparse(st)
             # tuple of four list assignments
-            if isinstance(st, ast.Assign) and isinstance(st.targets[0], ast.Tuple) and len(st.targets[0].elts) == 4 \
-                    and isinstance(st.value, ast.Tuple) and len(st.value.elts) == 4:
+            if isinstance(st, ast.Assign) and isinstance(st.targets[0], ast.Tuple) and isinstance(st.value, ast.Tuple) \
+                    and len(st.targets[0].elts) == len(st.value.elts) and len(st.value.elts) in (3, 4) \
+                    and all(isinstance(v, ast.List) for v in st.value.elts):
                 for tgt, val in zip(st.targets[0].elts, st.value.elts):
                     out += super().block([ast.Assign(targets=[tgt], value=val, lineno=st.lineno)], ind, False)
                 continue
@@ -197,7 +205,7 @@ class EvFn(pf.Fn):
         return out
 
 
-def queue_lean(cls):
+def queue_lean(cls, future=False):
     """myQueue -> Lean.  `add`'s guard and counter increment are translated; heappush / heappop are modelled."""
     m = {n.name: n for n in cls.body if isinstance(n, ast.FunctionDef)}
     if [ast.unparse(s) for s in m["__init__"].body] != ["self._Q_ = []", "self.tmax = tmax", "self.counter = 0"]:
@@ -218,9 +226,10 @@ def queue_lean(cls):
         raise Unsupported("myQueue.pop_and_run changed")
     if [ast.unparse(s) for s in m["__len__"].body if not (isinstance(s, ast.Expr) and isinstance(s.value, ast.Constant))] != ["return len(self._Q_)"]:
         raise Unsupported("myQueue.__len__ changed")
+    FUT = " (future : List ERat)" if future else ""
     return f'''/-- tag of a queued event: the function pointer and its node arguments -/
 inductive Ev
-  | trans (source : Option Node) (target : Node)
+  | trans (source : Option Node) (target : Node){FUT}
   | recov (node : Node)
 deriving DecidableEq, Repr
 
@@ -502,6 +511,183 @@ def translate_fsis(repo=REPO):
 
 
 
+# ======================================================================================= fast_nonMarkov_SIS
+FIELDS_NS = [("status", "status"), ("rec_time", "nodefn:erat"), ("Q", "queue"), ("times", "list:erat"), ("S", "list:int"),
+             ("I", "list:int"), ("infection_times", "ddlist"), ("recovery_times", "ddlist"), ("transmissions", "trans"),
+             # locals of the handler that are re-assigned inside branches (kept in the record; written before read)
+             ("trans_times", "list:erat"), ("following_transmissions", "list:erat")]
+PARAMS_NS_MAIN = {"tmin": ("P.tmin", "rat"), "tmax": ("P.tmax", "erat"), "initial_infecteds": ("initial_infecteds", "nodes")}
+PARAMS_NS_TRANS = dict(PARAMS_NS_MAIN, time=("time", "erat"), source=("source", "onode"), target=("target", "node"),
+                       future_transmissions=("future_transmissions", "list:erat"))
+PARAMS_NS_REC = dict(PARAMS_NS_MAIN, time=("time", "erat"), node=("node", "node"))
+EVENTS_NS = {
+    "_process_rec_SIS_": ("recov", (1, ["times", "recovery_times", "S", "I", "status"]), [0]),
+    "_process_trans_SIS_nonMarkov_": ("transF", (4, ["times", "S", "I", "Q", "status", "rec_time", "infection_times", "recovery_times",
+                                                     "transmissions", "trans_and_rec_time_fxn", "trans_and_rec_time_args"]), [1, 2, 3]),
+}
+
+
+class NsFn(EvFn):
+    def __init__(self, node, params):
+        super().__init__(node, params, fields=FIELDS_NS, ns="GenNMSIS", events=EVENTS_NS)
+
+    def expr(self, e, ind):
+        src = ast.unparse(e)
+        if src == "defaultdict(lambda: [])":
+            return [], "[]", "list:empty"
+        if isinstance(e, ast.Subscript) and isinstance(e.value, ast.Name) and self.temps.get(e.value.id) == "delaysL":
+            pk, key, kk = self.expr(e.slice, ind)
+            t = self.tmp("dl")
+            return pk + [f"{ind}let {t} ← PyTM.liftE (PyRT.dictGet {e.value.id} {key})"], t, "list:erat"
+        if isinstance(e, ast.Subscript) and isinstance(e.slice, ast.Slice) and e.slice.upper is None and e.slice.step is None \
+                and ast.unparse(e.slice.lower) == "1":
+            pv, v, kv = self.expr(e.value, ind)
+            if kv == "list:erat":
+                return pv, f"({v}.drop 1)", "list:erat"
+        if isinstance(e, ast.ListComp) and len(e.generators) == 1 and isinstance(e.generators[0].target, ast.Name) \
+                and len(e.generators[0].ifs) <= 1 and not e.generators[0].is_async:
+            g = e.generators[0]
+            pv, seq, kv = self.expr(g.iter, ind)
+            if kv != "list:erat":
+                raise Unsupported("comprehension over " + kv)
+            x = g.target.id
+            saved = dict(self.temps)
+            saved_params = self.params
+            self.params = {k: v for k, v in self.params.items() if k != x}     # the comprehension variable shadows a parameter
+            self.temps[x] = "erat"
+            pe, elt, ke = self.expr(e.elt, ind)
+            pc, cond = ([], None)
+            if g.ifs:
+                pc, cond = self.truth(g.ifs[0], ind)
+            self.temps, self.params = saved, saved_params
+            if pe or pc or ke != "erat":
+                raise Unsupported("comprehension with effects / of kind " + ke)
+            out = seq
+            if cond is not None:
+                out = f"({out}.filter (fun {x} => {cond}))"
+            if elt != x:
+                out = f"({out}.map (fun {x} => {elt}))"
+            return pv, out, "list:erat"
+        if isinstance(e, ast.Compare) and len(e.ops) == 1 and isinstance(e.ops[0], ast.Gt):
+            pa, a, ka = self.expr(e.left, ind)
+            pb, b, kb = self.expr(e.comparators[0], ind)
+            if ka == "erat" and kb == "erat":
+                return pa + pb, f"(ERat.lt {b} {a})", "bool"
+        return super().expr(e, ind)
+
+    def truth(self, e, ind):
+        p, t, k = self.expr(e, ind)
+        if k == "list:erat":
+            return p, f"(!{t}.isEmpty)"
+        if k == "bool":
+            return p, t
+        return super().truth(e, ind)
+
+    def call(self, e, ind):
+        f = e.func
+        if isinstance(f, ast.Name) and f.id == "trans_and_rec_time_fxn":
+            if [ast.unparse(a) for a in e.args] != ["target", "G.neighbors(target)", "*trans_and_rec_time_args"]:
+                raise Unsupported("callback arguments " + ast.unparse(e))
+            t = self.tmp("jr")
+            # the user rule may depend on how many times `target` has been infected before this call (the harness's
+            # tables are indexed by the k-th infection): that count is read off the shared `infection_times`
+            return [f"{ind}let {t} ← P.transRec ((alGet σ.infection_times [] target).length - 1) target (P.nbrs target)"], t, "jointresL"
+        return super().call(e, ind)
+
+    def block(self, stmts, ind, in_loop=False):
+        out = []
+        for i, st in enumerate(stmts):
+            src = ast.unparse(st)
+            if isinstance(st, ast.Assign) and isinstance(st.targets[0], ast.Tuple) and src.startswith("trans_delays, rec_delay = "):
+                p, t, k = self.expr(st.value, ind)
+                if k != "jointresL":
+                    raise Unsupported(src)
+                self.temps["trans_delays"], self.temps["rec_delay"] = "delaysL", "erat"
+                out += p + [f"{ind}let (trans_delays, rec_delay) := {t}"]
+                continue
+            if isinstance(st, ast.Assign) and isinstance(st.targets[0], ast.Name) and self.fields.get(st.targets[0].id) == "list:erat":
+                p, t, k = self.expr(st.value, ind)
+                if k != "list:erat":
+                    raise Unsupported(src)
+                out += p + [f"{ind}let σ := {{ σ with {st.targets[0].id} := {t} }}"]
+                continue
+            out += super().block([st], ind, in_loop and i == len(stmts) - 1)
+        return out
+
+
+HEADER_NS = HEADER.replace("`myQueue`, `_process_trans_SIR_`, `_process_rec_SIR_` and\n`fast_nonMarkov_SIR`",
+                           "`myQueue`, `_process_trans_SIS_nonMarkov_`, `_process_rec_SIS_` and\n`fast_nonMarkov_SIS`").replace("namespace GenESIR", "namespace GenNMSIS")
+
+
+def translate_nmsis(repo=REPO):
+    src = open(os.path.join(repo, "EoN", "simulation.py")).read()
+    tree = ast.parse(src)
+    fns = {n.name: n for n in tree.body if isinstance(n, ast.FunctionDef)}
+    cls = {n.name: n for n in tree.body if isinstance(n, ast.ClassDef)}
+    errors, parts, sources = {}, [], []
+    try:
+        parts.append(queue_lean(cls["myQueue"], future=True))
+        sources.append(ast.unparse(cls["myQueue"]))
+        parts.append("/-- the arguments: the graph is read through `G.neighbors` and `G.order()`; `transRec k node nbrs` is the user's\n"
+                     "`trans_and_rec_time_fxn(node, nbrs, *args)` at the `k`-th infection of `node` (k = 0 the first): the list of delays per\n"
+                     "neighbour in dictionary order and the duration -/\n"
+                     "structure NArgs where\n  nbrs : Node → List Node\n  order : Nat\n  tmin : Rat\n  tmax : ERat\n"
+                     "  transRec : Nat → Node → List Node → TM (List (Node × List ERat) × ERat)\n")
+        parts.append("/-- the objects shared by the main function and the event handlers -/\nstructure Loc where\n" +
+                     "\n".join(f"  {f} : {pf.LEAN_TY[k]}" for f, k in FIELDS_NS) + "\n")
+        parts.append("def Loc.init : Loc :=\n  { " + ", ".join(f"{f} := {pf.DEFAULT[k]}" for f, k in FIELDS_NS) + " }\n")
+        n = fns["_process_rec_SIS_"]
+        if [a.arg for a in n.args.args] != ["time", "node", "times", "recovery_times", "S", "I", "status"]:
+            raise Unsupported("_process_rec_SIS_ parameters")
+        lines = NsFn(n, PARAMS_NS_REC).block(body_of(n), "  ")
+        parts.append(f"/-- generated from `_process_rec_SIS_` (EoN/simulation.py:{n.lineno}) -/\n"
+                     "def process_rec (P : NArgs) (time : ERat) (node : Node) (σ : Loc) : TM Loc := do\n" + "\n".join(lines) + "\n  pure σ\n")
+        sources.append(ast.unparse(n))
+        n = fns["_process_trans_SIS_nonMarkov_"]
+        want = ["time", "G", "source", "target", "future_transmissions", "times", "S", "I", "Q", "status", "rec_time", "infection_times",
+                "recovery_times", "transmissions", "trans_and_rec_time_fxn", "trans_and_rec_time_args"]
+        if [a.arg for a in n.args.args] != want:
+            raise Unsupported("_process_trans_SIS_nonMarkov_ parameters")
+        lines = NsFn(n, PARAMS_NS_TRANS).block(body_of(n), "  ")
+        parts.append(f"/-- generated from `_process_trans_SIS_nonMarkov_` (EoN/simulation.py:{n.lineno}) -/\n"
+                     "def process_trans (P : NArgs) (time : ERat) (source : Option Node) (target : Node) (future_transmissions : List ERat) "
+                     "(σ : Loc) : TM Loc := do\n" + "\n".join(lines) + "\n  pure σ\n")
+        sources.append(ast.unparse(n))
+        parts.append("/-- generated from `myQueue.pop_and_run`: pop the smallest entry and call its function on the shared objects -/\n"
+                     "def pop_and_run (P : NArgs) (σ : Loc) : TM Loc := do\n"
+                     "  let (m, q) ← PyTM.liftE (MyQueue.popMin σ.Q)\n  let σ := { σ with Q := q }\n"
+                     "  match m.2.2 with\n  | Ev.trans source target future => process_trans P m.1 source target future σ\n"
+                     "  | Ev.recov node => process_rec P m.1 node σ\n")
+        n = fns["fast_nonMarkov_SIS"]
+        body = n.body
+        start = next((i for i, s in enumerate(body) if ast.unparse(s) == "times, S, I = ([tmin], [G.order()], [0])"), None)
+        wi = next((i for i, s in enumerate(body) if isinstance(s, ast.While)), None)
+        if start is None or wi is None:
+            raise Unsupported("slice markers of fast_nonMarkov_SIS not found")
+        wh = body[wi]
+        if ast.unparse(wh.test) != "Q" or [ast.unparse(s) for s in wh.body] != ["Q.pop_and_run()"]:
+            raise Unsupported("main loop is no longer `while Q: Q.pop_and_run()`")
+        post = body[wi + 1: wi + 4]
+        if [ast.unparse(s) for s in post] != ["times = times[len(initial_infecteds):]", "S = S[len(initial_infecteds):]",
+                                              "I = I[len(initial_infecteds):]"]:
+            raise Unsupported("removal of the synthetic initial rows changed")
+        fn = NsFn(n, PARAMS_NS_MAIN)
+        pre = fn.block(body[start:wi], "  ")
+        post_l = fn.block(post, "  ")
+        parts.append("/-- generated from `while Q: Q.pop_and_run()`; `fuel` bounds the number of events -/\n"
+                     "def loop (P : NArgs) : Nat → Loc → TM Loc\n  | 0, _ => TM.fail \"fuel\"\n  | fuel + 1, σ => do\n"
+                     "    if decide (MyQueue.len σ.Q > 0) then do\n      let σ ← pop_and_run P σ\n      loop P fuel σ\n    else pure σ\n")
+        parts.append(f"/-- generated from `fast_nonMarkov_SIS` (EoN/simulation.py:{body[start].lineno}-{post[-1].lineno}) -/\n"
+                     "def run (P : NArgs) (initial_infecteds : List Node) (fuel : Nat) : TM Loc := do\n"
+                     "  let σ : Loc := Loc.init\n" + "\n".join(pre) + "\n  let σ ← loop P fuel σ\n" + "\n".join(post_l) + "\n  pure σ\n")
+        sources.append(ast.unparse(ast.Module(body=body[start:wi + 4], type_ignores=[])))
+    except (Unsupported, KeyError) as ex:
+        errors["fast_nonMarkov_SIS"] = f"unsupported: {ex}"
+    sha = hashlib.sha1("\n".join(sources).encode()).hexdigest()
+    return HEADER_NS.format(sha=sha) + "\n".join(parts) + "\nend GenNMSIS\n", errors
+
+
+
 def _write(target, text):
     old = open(target).read() if os.path.exists(target) else None
     if text and old != text:
@@ -512,7 +698,7 @@ def _write(target, text):
     return old != text
 
 
-def regenerate(which=("sir", "fsis")):
+def regenerate(which=("sir", "fsis", "nmsis")):
     """`which`: the families to regenerate; a family whose translation fails keeps its old file and reports the error"""
     import warnings
     gen = os.path.join(os.path.dirname(os.path.abspath(__file__)), "..", "lean", "EoNVerif", "Gen")
@@ -529,12 +715,17 @@ def regenerate(which=("sir", "fsis")):
             errors.update(e)
             if not e:
                 changed |= _write(os.path.join(gen, "FastSISGen.lean"), text)
+        if "nmsis" in which:
+            text, e = translate_nmsis()
+            errors.update(e)
+            if not e:
+                changed |= _write(os.path.join(gen, "EventSISGen.lean"), text)
     return changed, errors
 
 
 def main():
     changed, errors = regenerate()
-    print("pyevent2lean: Gen/EventSIRGen.lean, Gen/FastSISGen.lean %s" % ("rewritten" if changed else "up to date"))
+    print("pyevent2lean: Gen/EventSIRGen.lean, Gen/FastSISGen.lean, Gen/EventSISGen.lean %s" % ("rewritten" if changed else "up to date"))
     for n, e in errors.items():
         print(f"pyevent2lean: {n}: {e}")
     return 1 if errors else 0
